@@ -382,7 +382,15 @@ def run(ctx):
                     import re
                     return re.search(args[0], args[1])
                 return super().function(ev, node, args, kwargs)
-        g = Abs(gfacls, label="gfa", names=list(used))
+        # (a registry, not a list of names: however the function asks
+        # whether an identifier is in use, it asks the Gfa)
+        segc0 = repo.cls("line.segment.GFA1")
+        recs0 = {k: {} for k in ("S", "P", "O", "L", "C", "E", "G", "U", "F",
+                                 "#", "\n")}
+        for nm in ["s"] + list(used):
+            recs0["S"][nm] = Abs(segc0, label=nm, virtual=False,
+                                 _virtual=False)
+        g = Abs(gfacls, label="gfa", _records=recs0, _version="gfa1")
         try:
             out = eval_function(repo, f_cn, [g, "s", factor], hooks=NH(repo))
             ok = out[0] == "return" and out[1] == want
